@@ -242,8 +242,13 @@ class Sem:
             if "*" in parts[1]:
                 b, c = parts[1].split("*", 1)
                 out["main_reg"], out["register_multiplier"], out["constant_multiplier"] = parts[0], b, c
+            elif parts[1].startswith("%"):
+                # 16-bit addressing prints base and index without scale: (%bx,%si) -> [%bx+%si]
+                out["main_reg"], out["register_multiplier"] = parts[0], parts[1]
             else:
                 out["main_reg"], out["constant_offset"] = parts[0], parts[1]
+        elif len(parts) == 3 and "*" not in parts[1] and parts[1].startswith("%"):
+            out["main_reg"], out["register_multiplier"], out["constant_offset"] = parts[0], parts[1], parts[2]
         elif len(parts) == 3 and "*" in parts[1]:
             b, c = parts[1].split("*", 1)
             out["main_reg"], out["register_multiplier"], out["constant_multiplier"], out["constant_offset"] = \
